@@ -1,4 +1,5 @@
 """C04 - predictions do not depend on where the structure sits in space."""
+import itertools
 import math
 
 from ..core import Acc, Viol, jhash
@@ -23,7 +24,8 @@ LEVEL_NOTE = ('Differential oracle between real executions. Inputs with a pair d
 TECHNIQUE = 'exhaustive enumeration of the 24 grid rotations x translation list over a bounded input corpus; differential comparison of real executions'
 ASSUMPTIONS = ['replacing round() inside propka.protonate by the identity is a faithful model of "no coordinate rounding"']
 
-TRANSLATIONS = {'none': (0, 0, 0), 'generic': (12345, -54321, 777), 'far-positive': None, 'far-negative': None, 'all-negative': None}
+TRANSLATIONS = {'none': (0, 0, 0), 'generic': (12345, -54321, 777), 'far-positive': None, 'far-negative': None, 'all-negative': None,
+                'edge-positive': None, 'edge-negative': None}
 
 
 def translations(s, tier, seed):
@@ -32,6 +34,9 @@ def translations(s, tier, seed):
     out['all-negative'] = tuple(-ext[i][1] - 1234 for i in range(3))
     out['far-positive'] = tuple(9900000 - ext[i][1] for i in range(3))
     out['far-negative'] = tuple(-985000 - ext[i][0] for i in range(3))     # hydrogens may stick out by ~1 A
+    # the structure touches the faces of the PDB coordinate field: constructed hydrogens may lie outside it
+    out['edge-positive'] = tuple(9999999 - ext[i][1] for i in range(3))
+    out['edge-negative'] = tuple(-999999 - ext[i][0] for i in range(3))
     if seed:
         out['seed'] = gen.seed_offset(seed)
     return out
@@ -82,6 +87,14 @@ def inputs(tier):
         out.append(dict(src='corpus', d=corpus.cutout_desc('1HPX', 'A', 24, 12.0), cfg=name))
     if tier == 'thorough':
         out += [dict(src='corpus', d=corpus.chain_desc('3SGB', 'I'))]
+    # every constructed hydrogen that can be the outermost atom in some direction, in the pose where it is: the structure turned so
+    # that this direction is +x / -x and pushed against the face of the PDB coordinate field (the hydrogen then lies outside it)
+    out += [dict(src='edge-h', base=dict(src='flat', kind=k)) for k in ('ARG', 'HIS', 'ASN', 'GLN', 'TRP')]
+    prs = [d for d in corpus.pairs('quick', kinds_a=('ASP', 'HIS', 'ARG', 'TYR', 'N+'), kinds_b=('LYS', 'GLU', 'C-', 'ARG', 'ASN', 'TRP', 'CYS', 'SER'))
+           if d.get('level') == 'exposed']
+    out += [dict(src='edge-h', base=dict(src='corpus', d=d)) for d in prs[:: (1 if tier == 'thorough' else 3)]]
+    out += [dict(src='edge-h', base=dict(src='corpus', d=d)) for d in corpus.windows(tier, k=5)[:: (1 if tier == 'thorough' else 4)]]
+    out += [dict(src='edge-h', base=dict(src='corpus', d=d)) for d in corpus.windows(tier, k=3)[:: (2 if tier == 'thorough' else 8)]]
     return out
 
 
@@ -91,7 +104,9 @@ def plan(tier, seed):
     return dict(shards=shards, exhaustive=True,
                 rule=('inputs: 5 flattened planar fragments, docked pairs (5x8 amino-acid kinds; 4x5 with ligands/ions), clusters, 8 A '
                       'cut-outs, 5-residue windows; motions: 24 rotations x translations {generic, x~9900}%s; for amino-acid inputs each '
-                      'motion is run twice (hydrogens built un-rounded; own hydrogens fed back with --keep-protons). non-trivial = distinct '
+                      'motion is run twice (hydrogens built un-rounded; own hydrogens fed back with --keep-protons); translations that push the '
+                      'structure against the faces of the coordinate field, incl. (small inputs) every pose in which a constructed hydrogen is '
+                      'the outermost atom. non-trivial = distinct '
                       '(input, motion) other than the identity whose record has a determinant or a non-zero desolvation term') % (
                           ' and 4 rotations x {none, all-negative, x~-990, seed}' if tier == 'quick' else ' plus {none, all-negative, x~-990, seed}'),
                 bounds=dict(inputs=len(ins), rotations=24), samples=[ins[0], ins[10]])
@@ -250,9 +265,74 @@ def ss_scan(case, ctx, acc):
     acc.outcomes['ss-scan'] += 1
 
 
+EDGE_DIRS = None
+
+
+def edge_dirs():
+    global EDGE_DIRS
+    if EDGE_DIRS is None:
+        seen, out = set(), []
+        for v in itertools.product(range(-3, 4), repeat=3):
+            if not any(v):
+                continue
+            n = math.sqrt(sum(c * c for c in v))
+            u = tuple(round(c / n, 6) for c in v)
+            if u not in seen:
+                seen.add(u)
+                out.append(u)
+        EDGE_DIRS = out
+    return EDGE_DIRS
+
+
+def edge_h(case, ctx, acc):
+    base = case['base']
+    s = flat_fragment(base['kind']) if base['src'] == 'flat' else corpus.build(base['d'], ctx.seed)
+    if not c07.amino_only(s) or len(s.atoms) > 150:
+        acc.skipped += 1
+        return
+    try:
+        pk.seam_unrounded_hydrogens(True)
+        m0 = pk.run(gen.to_text(s))
+        conf = m0.conformations[m0.conformation_names[0]]
+        heavy = [(a.x, a.y, a.z) for a in conf.atoms if a.element != 'H']
+        hyd = [(a.x, a.y, a.z) for a in conf.atoms if a.element == 'H']
+        dirs = {}
+        for h in hyd:
+            best = None
+            for u in edge_dirs():
+                margin = sum(h[i] * u[i] for i in range(3)) - max(sum(a[i] * u[i] for i in range(3)) for a in heavy)
+                if margin > 0.15 and (best is None or margin > best[0]):
+                    best = (margin, u)
+            if best:
+                dirs.setdefault(best[1], round(best[0], 3))
+        acc.extra['edge_h_hydrogens'] += len(hyd)
+        acc.extra['edge_h_outermost_directions'] += len(dirs)
+        for u, margin in sorted(dirs.items()):
+            for face in ('+x', '-x'):
+                R = gen.rotmat(list(u), [1.0, 0.0, 0.0] if face == '+x' else [-1.0, 0.0, 0.0])
+                rot = s.copy()
+                for a in rot.atoms:
+                    c = (a.x, a.y, a.z)
+                    a.x, a.y, a.z = (int(round(sum(R[i][j] * c[j] for j in range(3)))) for i in range(3))
+                ext = rot.extent()
+                t = [9999999 - ext[0][1] if face == '+x' else -999999 - ext[0][0], 0, 0]
+                ta, tb = gen.to_text(rot), gen.to_text(rot.copy().translate(t))
+                ra, rb = pk.record(pk.run(ta)), pk.record(pk.run(tb))
+                sub = dict(case, u=list(u), face=face, margin=margin)
+                nt = any(any(g['dets'][x] for x in g['dets']) for g in ra['confs']['AVR']['groups'])
+                acc.case(nontrivial_key=jhash(sub) if nt else None, outcome='edge-h')
+                d = cmp.diff_records(ra, rb, tol=1e-9)
+                if d:
+                    acc.viols.append(Viol(sub, 'pose', 'pka-depends-on-pose/field-edge/%s' % d[0][0], str(d[0])[:300], inputs=dict(pdb=ta, moved=tb)))
+    finally:
+        pk.seam_unrounded_hydrogens(False)
+
+
 def run_case(case, ctx, acc):
     if case['src'] == 'ss-scan':
         return ss_scan(case, ctx, acc)
+    if case['src'] == 'edge-h':
+        return edge_h(case, ctx, acc)
     base_opts = cfg_opts(case)
     if case['src'] == 'flat':
         s = flat_fragment(case['kind']).translate(gen.seed_offset(ctx.seed))
@@ -330,16 +410,22 @@ def run_case(case, ctx, acc):
                     d = cmp.diff_records(r0, r1, tol=1e-9)
                     if d:
                         v.append(('pka-depends-on-pose/unrounded-hydrogens/%s' % d[0][0], str(d[0])[:300]))
-                    if fed is not None:
-                        fm = gen.S([i.clone() if not isinstance(i, str) else i for i in fed]).rotate(rot).translate(t)
+                    infield = lambda st: all(-999999 <= e[0] and e[1] <= 9999999 for e in st.extent())   # noqa: E731
+                    fm = None if fed is None else gen.S([i.clone() if not isinstance(i, str) else i for i in fed]).rotate(rot).translate(t)
+                    if fm is not None and not infield(fm):
+                        acc.extra['fed_back_hydrogens_outside_coordinate_field(not written)'] += 1
+                        fm = None
+                    if fm is not None:
                         rk1 = pk.record(pk.run(gen.to_text(fm), ('--keep-protons',) + base_opts))
                         d = cmp.diff_records(rk0, rk1, tol=1e-9)
                         acc.n += 1
                         if d:
                             v.append(('pka-depends-on-pose/keep-protons/%s' % d[0][0], str(d[0])[:300]))
                             inputs['moved_with_h'] = gen.to_text(fm)
-                    if shared is not None:
-                        sm = gen.S([i.clone() if not isinstance(i, str) else i for i in shared]).rotate(rot).translate(t)
+                    sm = None if shared is None else gen.S([i.clone() if not isinstance(i, str) else i for i in shared]).rotate(rot).translate(t)
+                    if sm is not None and not infield(sm):
+                        sm = None
+                    if sm is not None:
                         m2 = pk.run(gen.to_text(sm), ('--keep-protons',) + base_opts)
                         acc.n += 1
                         acc.extra['shared_proton_runs'] += 1
